@@ -52,6 +52,8 @@ struct CState {
     /// every k-th call of write() fails with `Interrupted` without taking anything (0 = never)
     write_interrupt_every: usize,
     write_calls: usize,
+    /// every k-th call of read() fails with `Interrupted` without delivering anything (0 = never)
+    read_interrupt_every: usize,
     consumed: usize,
     events: Vec<Event>,
     starve: Option<StarveFn>,
@@ -97,6 +99,7 @@ pub fn pair() -> (MemClient, MemConn) {
             write_fault: None,
             write_interrupt_every: 0,
             write_calls: 0,
+            read_interrupt_every: 0,
             consumed: 0,
             events: Vec::new(),
             starve: None,
@@ -114,6 +117,9 @@ impl MemConn {
     pub fn read(&mut self, buf: &mut [u8]) -> io::Result<usize> {
         let mut st = self.sh.st.lock().unwrap();
         st.reads += 1;
+        if st.read_interrupt_every > 0 && st.reads % st.read_interrupt_every as u64 == 0 {
+            return Err(io::Error::new(io::ErrorKind::Interrupted, "injected transient read error"));
+        }
         loop {
             if st.read_shutdown {
                 return Ok(0);
@@ -298,6 +304,11 @@ impl MemClient {
     pub fn set_write_interrupts(&self, every: usize) {
         let mut st = self.sh.st.lock().unwrap();
         st.write_interrupt_every = every;
+    }
+    /// every k-th read call reports `Interrupted` (a transient error: the caller is to try again)
+    pub fn set_read_interrupts(&self, every: usize) {
+        let mut st = self.sh.st.lock().unwrap();
+        st.read_interrupt_every = every;
     }
     pub fn set_starve(&self, f: StarveFn) {
         let mut st = self.sh.st.lock().unwrap();
